@@ -934,6 +934,50 @@ static void t_argvc(Src &s, Case &c)
     else
         check_argvc_split(c, d, argcmax);
 }
+// Words of arbitrary bytes (UTF-8 / Latin-1 text, control characters): only SP TAB LF CR separate, whatever the
+// signedness of char.
+static void t_argvc_bytes(Src &s, Case &c)
+{
+    bool n_variant = s.coin();
+    size_t n = gen_len(s, 48);
+    Str d(n, 'a');
+    bool high = false;
+    for (size_t i = 0; i < n; i++)
+    {
+        switch (s.weighted({5, 3, 1, 1}))
+        {
+        case 0:
+            d[i] = (char)s.u8();
+            break;
+        case 1:
+            d[i] = s.pick({' ', ' ', '\t', '\n', '\r'});
+            break;
+        case 2:
+            d[i] = (char)(s.pick<uint8_t>({' ', '\t', '\n', '\r'}) | s.pick<uint8_t>({0x40, 0x80, 0xC0})); // a separator's low bits under other high bits
+            break;
+        default:
+            d[i] = 'a';
+        }
+        if (d[i] == 0 && !(n_variant && s.chance(1, 4)))
+            d[i] = (char)0x80;
+        high |= (d[i] & 0x80) != 0;
+    }
+    int argcmax = gen_argcmax(s);
+    c.log("%s d=\"%s\" n=%zu argcmax=%d", n_variant ? "argvc_split_n" : "argvc_split", esc(d).c_str(), d.size(), argcmax);
+    auto words = ref_words(d, is_ws);
+    c.nontrivial = high && !words.empty();
+    if (high)
+        c.label("high_bytes");
+    if (words.size() > (size_t)argcmax)
+        c.label("more_words_than_argcmax");
+    if (n_variant)
+        check_argvc_split_n(c, d, argcmax);
+    else
+        check_argvc_split(c, d, argcmax);
+}
+VP_TARGET("argvc_bytes", t_argvc_bytes,
+          "argvc_internal_split / _split_n on strings of 0..48 arbitrary bytes (all of 0x01..0xFF, separators over-weighted, bytes that share a separator's low six bits, NUL "
+          "for _split_n): only SP TAB LF CR separate words; checks of argvc; non-trivial = a byte >= 0x80 and at least one word");
 VP_TARGET("argvc", t_argvc,
           "random string 0..64 over {a SP TAB LF CR (b \" ,)} (+NUL for _split_n), argcmax 0..12; "
           "argvc_internal_split on an exactly-sized terminated block, argvc_internal_split_n on an "
@@ -1031,6 +1075,12 @@ static void check_shell(Case &c, int fn, const std::vector<Str> &names, size_t s
     int rc;
     const int OUTSZ = 7;
     NBlk out(OUTSZ);
+    // a caller not interested in the handler's return value passes no place for it (decided by the case's content, no
+    // extra choice): the handler still runs, with the same arguments
+    const bool no_ret = (line.size() * 7 + names.size() * 3 + (size_t)fn) % 4 == 0;
+    int *const retp = no_ret ? nullptr : &ret;
+    if (no_ret)
+        c.label("null_retptr");
 
     if (fn == MSH_EXEC || fn == MSH_TABLES)
     {
@@ -1043,7 +1093,7 @@ static void check_shell(Case &c, int fn, const std::vector<Str> &names, size_t s
         if (fn == MSH_EXEC)
         {
             scribble_stack();
-            rc = mshell_execute(blk.c(), t0.data(), &ret);
+            rc = mshell_execute(blk.c(), t0.data(), retp);
         }
         else
         {
@@ -1054,7 +1104,7 @@ static void check_shell(Case &c, int fn, const std::vector<Str> &names, size_t s
             tabs.push_back(t1.data());
             tabs.push_back(nullptr);
             scribble_stack();
-            rc = mshell_tables_execute(blk.c(), tabs.data(), &ret);
+            rc = mshell_tables_execute(blk.c(), tabs.data(), retp);
         }
     }
     else
@@ -1068,7 +1118,7 @@ static void check_shell(Case &c, int fn, const std::vector<Str> &names, size_t s
         if (fn == RSH_EXEC)
         {
             scribble_stack();
-            rc = rshell_execute(blk.c(), t0.data(), &ret, drop[0], out.c(), OUTSZ);
+            rc = rshell_execute(blk.c(), t0.data(), retp, drop[0], out.c(), OUTSZ);
         }
         else
         {
@@ -1079,7 +1129,7 @@ static void check_shell(Case &c, int fn, const std::vector<Str> &names, size_t s
             tabs.push_back({t1.data(), drop[1]});
             tabs.push_back({nullptr, 0});
             scribble_stack();
-            rc = rshell_tables_execute(blk.c(), tabs.data(), &ret, out.c(), OUTSZ);
+            rc = rshell_tables_execute(blk.c(), tabs.data(), retp, out.c(), OUTSZ);
         }
     }
 
@@ -1126,8 +1176,8 @@ static void check_shell(Case &c, int fn, const std::vector<Str> &names, size_t s
         VP_CHECK(k.out == out.c() && k.maxsize == OUTSZ, "rshell_output_args",
                  "%s handler got output=%p/%d want %p/%d", F, (void *)k.out, k.maxsize,
                  (void *)out.c(), OUTSZ);
-    VP_CHECK(rc == SSHELL_OK && ret == 100 + hit, "shell_rc_hit", "%s(\"%s\") rc=%d ret=%d want 0/%d", F,
-             esc(line).c_str(), rc, ret, 100 + hit);
+    VP_CHECK(rc == SSHELL_OK && ret == (no_ret ? -777 : 100 + hit), "shell_rc_hit", "%s(\"%s\"%s) rc=%d ret=%d want 0/%d", F,
+             esc(line).c_str(), no_ret ? ", no place for the return value" : "", rc, ret, no_ret ? -777 : 100 + hit);
 }
 
 // Nested dispatch: the handler of the outer command dispatches a second line through the same dispatcher (a
